@@ -283,7 +283,8 @@ Proof.
 Qed.
 Print Assumptions C05_bulk_calls_are_source.
 
-(* THE SOURCE TIE for the bulk call.  Both loops of DiHypergraph.add_edges_from are regenerated on every run: the item of the dict
+(* THE SOURCE TIE for the bulk calls of DiHypergraph.  Both loops of add_edges_from (and the guard of remove_nodes_from, whose item
+   calls the translated remove_node) are regenerated on every run: the item of the dict
    format, and the `while True:` loop of formats 1-4 (dispatch table, guarded item, `format2 or format4` as the flag, the two
    attribute updates in their order).  Run item by item they are the model's d_add_edges_from in all five formats, on every state
    with the class invariant and for every **attr with distinct keys.  Outside: the detection of the format, the iterator protocol,
@@ -294,6 +295,8 @@ Theorem C05_directed_bulk_call_is_source :
      (forall l, run_dbulk dsrc_bulk_formats 0 dsrc_bulk_item_guards dsrc_bulk_item a (map (fun m => (fst m, snd m, LNone, [])) l) d = d_add_edges_from (DB1 l) a d) /\
      (forall l, run_dbulk dsrc_bulk_formats 1 dsrc_bulk_item_guards dsrc_bulk_item a (map (fun m => (fst (fst m), snd (fst m), snd m, [])) l) d = d_add_edges_from (DB2 l) a d) /\
      (forall l, run_dbulk dsrc_bulk_formats 2 dsrc_bulk_item_guards dsrc_bulk_item a (map (fun m => (fst (fst m), snd (fst m), LNone, snd m)) l) d = d_add_edges_from (DB3 l) a d) /\
-     (forall l, run_dbulk dsrc_bulk_formats 3 dsrc_bulk_item_guards dsrc_bulk_item a l d = d_add_edges_from (DB4 l) a d)).
-Proof. split; [exact d_add_edges_from_dict_is_source|exact d_add_edges_from_items_is_source]. Qed.
+     (forall l, run_dbulk dsrc_bulk_formats 3 dsrc_bulk_item_guards dsrc_bulk_item a l d = d_add_edges_from (DB4 l) a d)) /\
+  (forall strong re ns d, DInv d ->
+     run_dnode_items dsrc_remove_nodes_from_guards dsrc_remove_node ns [strong; re] d = d_remove_nodes_from ns strong re d).
+Proof. split; [exact d_add_edges_from_dict_is_source|split; [exact d_add_edges_from_items_is_source|exact d_remove_nodes_from_is_source]]. Qed.
 Print Assumptions C05_directed_bulk_call_is_source.
